@@ -12,7 +12,8 @@ import FqModel.C01Spec
 
   term (prefix):  B <hex> <nBits|-1> | S <off> <n> T | M <k> T×k | Z <n> | L <n> T | I U | O (F <hex> | G <size> <seed>)
                   U: R <hex> | F <hex> | G <size> <seed> | A <minRead> U | P <precision> <total> U | C U | Y T | y T
-  op:  ra n off | rd n | sk off s|c|e | cl | rf n | raf n off | ird n | isk off s|c|e
+  term W <k> <op,args>×k T : the reader T after k operations (commas instead of blanks), handed to the enclosing constructor in that state
+  op:  ra n off | rd n | sk off s|c|e | cl | rf n | raf n off | ird n | isk off s|c|e | @i.j.k <op> (the same on the sub-reader at that child path: an aliased part)
   obs: `<n> <hex|-> <ok|eof|off|neg|ueof|oth>` | `panic` | `hang`
        (bit reads: hex of the n bits, last byte zero padded; seeks: n = position; rf/raf: n = returned value,
         hex = the bits read into p)
@@ -30,88 +31,17 @@ def genData (size seed : Nat) : List UInt8 := (List.range size).map (genByte see
 
 def parseInt (s : String) : Option Int := s.toInt?
 
-/-- term parser; `fuel` bounds the recursion (number of tokens) -/
-def parseTerm : Nat → List String → Option (Rd × List String)
-  | 0, _ => none
-  | fuel+1, ws =>
-    match ws with
-    | "B" :: hex :: nb :: rest => do
-      let data ← bytesOfHex hex
-      let nBits ← (if nb == "-1" then some none else nb.toNat?.map some)
-      pure (newBitReader data nBits, rest)
-    | "S" :: off :: n :: rest => do
-      let off ← off.toNat?
-      let n ← n.toNat?
-      let (r, rest) ← parseTerm fuel rest
-      pure (newSect r off n, rest)
-    | "M" :: k :: rest => do
-      let k ← k.toNat?
-      let rec loop : Nat → List String → List Rd → Option (List Rd × List String)
-        | 0, rest, acc => some (acc.reverse, rest)
-        | k+1, rest, acc => do
-          let (r, rest) ← parseTerm fuel rest
-          loop k rest (r :: acc)
-      let (rs, rest) ← loop k rest []
-      match newMulti rs with
-      | .ok m => pure (m, rest)
-      | _ => none
-    | "Z" :: n :: rest => do
-      let n ← n.toNat?
-      pure (.zero 0 n, rest)
-    | "L" :: n :: rest => do
-      let n ← n.toNat?
-      let (r, rest) ← parseTerm fuel rest
-      pure (.limit r n, rest)
-    | "I" :: rest => do
-      let (b, rest) ← parseTerm fuel rest
-      pure (newIOBits b, rest)
-    | "O" :: rest => do
-      -- the reader stack of interp._open over a file, with the constants regenerated from pkg/interp/binary.go
-      let (leaf, rest) ← parseTerm fuel rest
-      match leaf with
-      | .raw data _ _ => pure (openStackOn leaf data.length, rest)
-      | _ => none
-    | "R" :: hex :: rest => do
-      let data ← bytesOfHex hex
-      pure (.raw data 0 false, rest)
-    | "F" :: hex :: rest => do
-      let data ← bytesOfHex hex
-      pure (.raw data 0 true, rest)
-    | "G" :: size :: seed :: rest => do
-      let size ← size.toNat?
-      let seed ← seed.toNat?
-      pure (.raw (genData size seed) 0 true, rest)
-    | "A" :: m :: rest => do
-      let m ← m.toNat?
-      let (b, rest) ← parseTerm fuel rest
-      pure (.ahead b m 0 [] 0, rest)
-    | "P" :: prec :: total :: rest => do
-      let prec ← prec.toNat?
-      let total ← total.toNat?
-      if prec = 0 then none else
-      let (b, rest) ← parseTerm fuel rest
-      pure (newProgress b prec total, rest)
-    | "C" :: rest => do
-      let (b, rest) ← parseTerm fuel rest
-      pure (.ctx b, rest)
-    | "Y" :: rest => do
-      let (r, rest) ← parseTerm fuel rest
-      pure (.ioBytes r true none {} 0, rest)
-    | "y" :: rest => do
-      let (r, rest) ← parseTerm fuel rest
-      pure (.ioBytes r false none {} 0, rest)
-    | _ => none
-
 inductive DOp
   | ra (n : Nat) (off : Int) | rd (n : Nat) | sk (off : Int) (w : Whence) | cl
   | rf (n : Nat) | raf (n : Nat) (off : Int) | ird (n : Nat) | isk (off : Int) (w : Whence)
+  | at (path : List Nat) (op : DOp)   -- the same operation on the sub-reader at `path` (an aliased part)
 deriving Repr, Inhabited
 
 def parseWhence : String → Option Whence
   | "s" => some .start | "c" => some .current | "e" => some .end_ | _ => none
 
-def parseOp (s : String) : Option DOp :=
-  match words s with
+def parseOp1 (ws : List String) : Option DOp :=
+  match ws with
   | ["ra", n, off] => do pure (.ra (← n.toNat?) (← parseInt off))
   | ["rd", n] => do pure (.rd (← n.toNat?))
   | ["sk", off, w] => do pure (.sk (← parseInt off) (← parseWhence w))
@@ -121,6 +51,135 @@ def parseOp (s : String) : Option DOp :=
   | ["ird", n] => do pure (.ird (← n.toNat?))
   | ["isk", off, w] => do pure (.isk (← parseInt off) (← parseWhence w))
   | _ => none
+
+/-- `@i.j.k <op>` addresses the sub-reader at child path i.j.k (no clone there) -/
+def parseOpWords (ws : List String) : Option DOp :=
+  match ws with
+  | w :: rest =>
+    if w.startsWith "@" then do
+      let path ← ((w.drop 1).toString.splitOn ".").mapM (·.toNat?)
+      match ← parseOp1 rest with
+      | .cl => none
+      | op => pure (.at path op)
+    else parseOp1 ws
+  | [] => none
+
+def parseOp (s : String) : Option DOp := parseOpWords (words s)
+
+
+def isBitOp : DOp → Bool
+  | .ird _ | .isk _ _ => false
+  | .at _ op => isBitOp op
+  | _ => true
+
+def modelOp (s : Rd) (op : DOp) : Out :=
+  match op with
+  | .ra n off => step depthFuel s (.readAt n off)
+  | .rd n => step depthFuel s (.read n)
+  | .sk off w => step depthFuel s (.seek off w)
+  | .cl => step depthFuel s .clone
+  | .rf n => readFull depthFuel s n
+  | .raf n off => readAtFull depthFuel s n off
+  | .ird n => step depthFuel s (.readB n)
+  | .isk off w => step depthFuel s (.seekB off w)
+  | .at path op =>
+    match op with
+    | .ra n off => stepAt depthFuel path s (.readAt n off)
+    | .rd n => stepAt depthFuel path s (.read n)
+    | .sk off w => stepAt depthFuel path s (.seek off w)
+    | .ird n => stepAt depthFuel path s (.readB n)
+    | .isk off w => stepAt depthFuel path s (.seekB off w)
+    | .rf n => readFullLoop (fun s n _ => stepAt depthFuel path s (.read n)) n 0 (n + 2) s
+        (List.replicate (bitsByteCount n) 0) 0 0
+    | .raf n off => readFullLoop (fun s n o => stepAt depthFuel path s (.readAt n o)) n off (n + 2) s
+        (List.replicate (bitsByteCount n) 0) 0 0
+    | _ => .unsupported "clone of a part"
+
+
+abbrev Marks := List (List Nat × Nat)
+
+def under (i : Nat) (ms : Marks) : Marks := ms.map (fun (p, c) => (i :: p, c))
+
+/-- term parser; `fuel` bounds the recursion (number of tokens).  Third component: for every `W` node (a reader
+    that was used before being composed) its path and the cursor it had when it was handed to the constructor. -/
+def parseTerm : Nat → List String → Option (Rd × List String × Marks)
+  | 0, _ => none
+  | fuel+1, ws =>
+    match ws with
+    | "B" :: hex :: nb :: rest => do
+      let data ← bytesOfHex hex
+      let nBits ← (if nb == "-1" then some none else nb.toNat?.map some)
+      pure (newBitReader data nBits, rest, [])
+    | "S" :: off :: n :: rest => do
+      let off ← off.toNat?
+      let n ← n.toNat?
+      let (r, rest, ms) ← parseTerm fuel rest
+      pure (newSect r off n, rest, under 0 ms)
+    | "M" :: k :: rest => do
+      let k ← k.toNat?
+      let rec loop : Nat → Nat → List String → List Rd → Marks → Option (List Rd × List String × Marks)
+        | 0, _, rest, acc, ms => some (acc.reverse, rest, ms)
+        | k+1, i, rest, acc, ms => do
+          let (r, rest, m1) ← parseTerm fuel rest
+          loop k (i + 1) rest (r :: acc) (ms ++ under i m1)
+      let (rs, rest, ms) ← loop k 0 rest [] []
+      match newMulti rs with
+      | .ok m => pure (m, rest, ms)
+      | _ => none
+    | "Z" :: n :: rest => do
+      let n ← n.toNat?
+      pure (.zero 0 n, rest, [])
+    | "L" :: n :: rest => do
+      let n ← n.toNat?
+      let (r, rest, ms) ← parseTerm fuel rest
+      pure (.limit r n, rest, under 0 ms)
+    | "I" :: rest => do
+      let (b, rest, ms) ← parseTerm fuel rest
+      pure (newIOBits b, rest, under 0 ms)
+    | "O" :: rest => do
+      -- the reader stack of interp._open over a file, with the constants regenerated from pkg/interp/binary.go
+      let (leaf, rest, _) ← parseTerm fuel rest
+      match leaf with
+      | .raw data _ _ => pure (openStackOn leaf data.length, rest, [])
+      | _ => none
+    | "W" :: k :: rest => do
+      -- a reader on which k operations were performed BEFORE it is handed to the enclosing constructor
+      let k ← k.toNat?
+      let opsS := rest.take k
+      let (r, rest, ms) ← parseTerm fuel (rest.drop k)
+      let ops ← opsS.mapM (fun t => parseOpWords (t.splitOn ","))
+      let r ← ops.foldlM (fun r op => match modelOp r op with | .ok (r', _) => some r' | _ => none) r
+      pure (r, rest, ([], posOf r) :: ms)
+    | "R" :: hex :: rest => do
+      let data ← bytesOfHex hex
+      pure (.raw data 0 false, rest, [])
+    | "F" :: hex :: rest => do
+      let data ← bytesOfHex hex
+      pure (.raw data 0 true, rest, [])
+    | "G" :: size :: seed :: rest => do
+      let size ← size.toNat?
+      let seed ← seed.toNat?
+      pure (.raw (genData size seed) 0 true, rest, [])
+    | "A" :: m :: rest => do
+      let m ← m.toNat?
+      let (b, rest, ms) ← parseTerm fuel rest
+      pure (.ahead b m 0 [] 0, rest, under 0 ms)
+    | "P" :: prec :: total :: rest => do
+      let prec ← prec.toNat?
+      let total ← total.toNat?
+      if prec = 0 then none else
+      let (b, rest, ms) ← parseTerm fuel rest
+      pure (newProgress b prec total, rest, under 0 ms)
+    | "C" :: rest => do
+      let (b, rest, ms) ← parseTerm fuel rest
+      pure (.ctx b, rest, under 0 ms)
+    | "Y" :: rest => do
+      let (r, rest, ms) ← parseTerm fuel rest
+      pure (.ioBytes r true none {} 0, rest, under 0 ms)
+    | "y" :: rest => do
+      let (r, rest, ms) ← parseTerm fuel rest
+      pure (.ioBytes r false none {} 0, rest, under 0 ms)
+    | _ => none
 
 /-! ### observations -/
 
@@ -151,25 +210,10 @@ def parseObs (s : String) : Option Obs :=
 
 /-! ### the model on a history -/
 
-def isBitOp : DOp → Bool
-  | .ird _ | .isk _ _ => false
-  | _ => true
-
-def modelOp (s : Rd) (op : DOp) : Out :=
-  match op with
-  | .ra n off => step depthFuel s (.readAt n off)
-  | .rd n => step depthFuel s (.read n)
-  | .sk off w => step depthFuel s (.seek off w)
-  | .cl => step depthFuel s .clone
-  | .rf n => readFull depthFuel s n
-  | .raf n off => readAtFull depthFuel s n off
-  | .ird n => step depthFuel s (.readB n)
-  | .isk off w => step depthFuel s (.seekB off w)
-
 def resObs (op : DOp) (r : Res) : Obs :=
   match op with
-  | .ird _ => .res r.n r.bytes (errStr r.err)
-  | .isk _ _ | .sk _ _ | .cl => .res r.n [] (errStr r.err)
+  | .ird _ | .at _ (.ird _) => .res r.n r.bytes (errStr r.err)
+  | .isk _ _ | .sk _ _ | .cl | .at _ (.isk _ _) | .at _ (.sk _ _) => .res r.n [] (errStr r.err)
   | _ => .res r.n (packR r.bits) (errStr r.err)
 
 /-- model observations, quirk flags accumulated up to and including each op, fault message -/
@@ -350,6 +394,7 @@ def checkOp (c : Cur) (op : DOp) (o : Obs) : PV × Cur :=
       else if 0 ≤ target && target ≤ c.seekLimit then (.fail s!"valid seek to {target} rejected ({e})", c)
       else (.ok, c)
     | .cl => if e == "ok" then (.ok, { c with pos := 0 }) else (.fail "clone failed", c)
+    | .at _ _ => (.bad "nested path", c)
     | .ird n =>
       let pv := checkByteRead c c.pos n k data e
       (pv, { c with pos := c.pos + k })
@@ -365,7 +410,24 @@ def checkOp (c : Cur) (op : DOp) (o : Obs) : PV × Cur :=
 def knownKey (q : Nat) (_why : String) : Option String :=
   if q &&& qIoSeek ≠ 0 then some "ioreadseeker-unaligned-seek" else none
 
-def histVerdict (s : Rd) (ops : List DOp) (impl : List Obs) : String := Id.run do
+/-- the sub-reader at `path`, provided every reader above it only uses the part's ReadBitsAt (SectionReader,
+    MultiReader): then the part's own cursor is moved by nothing but the operations addressed to it -/
+partial def subAt : Rd → List Nat → Option Rd
+  | s, [] => some s
+  | .sect r _ _ _, 0 :: p => subAt r p
+  | .multi rs _ _, i :: p => match rs[i]? with
+    | some r => subAt r p
+    | none => none
+  | _, _ => none
+
+def isBitKind : Rd → Bool
+  | .sect .. | .multi .. | .zero .. | .ioBits .. => true
+  | _ => false
+
+def lookupCur (pcs : List (List Nat × Cur)) (path : List Nat) : Option Cur :=
+  (pcs.find? (fun x => x.1 == path)).map (·.2)
+
+def histVerdict (s : Rd) (marks : Marks) (ops : List DOp) (impl : List Obs) : String := Id.run do
   let (model, bad) := runModel s ops 0
   if let some why := bad then return s!"BADOP model: {why}"
   -- correspondence
@@ -377,16 +439,73 @@ def histVerdict (s : Rd) (ops : List DOp) (impl : List Obs) : String := Id.run d
     div := s!"op{i}:{m}"
   -- the predicate on the implementation's observations
   if impl.length > ops.length then return "BADOP more observations than ops"
+  let mark (path : List Nat) : Int := match marks.find? (fun x => x.1 == path) with
+    | some (_, p) => p
+    | none => 0
+  -- the top reader's cursor.  LimitReader and IOReader CONSUME their source through its ReadBits: they start where the
+  -- source stood when it was handed over, and LimitReader's cursor IS the source's cursor (shared with `@0` ops)
+  let src : Option Rd := match s with
+    | .limit r _ => some r
+    | .ioBytes r _ _ _ _ => some r
+    | _ => none
+  let isLimit := match s with | .limit .. => true | _ => false
+  let isSeekView := match s with | .ioBytes _ true _ _ _ => true | _ => false
   let mut c := mkCur s
+  let mut taintTop := false
+  match s with
+  | .limit _ _ => c := { c with pos := mark [0] }
+  | .ioBytes r _ _ _ _ =>
+    if mark [0] != 0 then
+      if isSeekView then taintTop := true   -- IOReadSeeker.Seek addresses the source absolutely: no single byte view
+      else
+        let d := denF r
+        let m := (mark [0]).toNat
+        c := { c with dB := (packR (d.get m (d.len - m))).toArray }
+  | _ => c := { c with pos := mark [] }
+  let mut pcs : List (List Nat × Cur) := []
   let mut fail : Option (Nat × String) := none
   let mut idx := 0
   for (op, o) in ops.zip impl do
-    let (pv, c') := checkOp c op o
-    c := c'
-    match pv with
-    | .bad why => return s!"BADOP {why}"
-    | .fail why => if fail.isNone then fail := some (idx, why)
-    | .ok => pure ()
+    match op with
+    | .at path inner =>
+      -- an aliased part: its own cursor (where it stood when it was handed to the constructor, then moved only by
+      -- the operations addressed to it) over its own bits
+      let target : Option Rd := match src, path with
+        | some r, 0 :: p => subAt r p
+        | some _, _ => none
+        | none, p => subAt s p
+      match target with
+      | some sub =>
+        if isBitKind sub then
+          if src.isSome && path == [0] then
+            if isLimit then
+              -- the source of a LimitReader: one cursor for both
+              let (pv, cur') := checkOp { mkCur sub with pos := c.pos } inner o
+              c := { c with pos := cur'.pos }
+              match pv with
+              | .bad why => return s!"BADOP {why}"
+              | .fail why => if fail.isNone then fail := some (idx, s!"part @{path}: {why}")
+              | .ok => pure ()
+            else taintTop := true   -- reading the source of an IOReader directly: its bit buffer is ahead of the source
+          else
+            let cur := match lookupCur pcs path with
+              | some cur => cur
+              | none => { mkCur sub with pos := mark path }
+            let (pv, cur') := checkOp cur inner o
+            pcs := (path, cur') :: pcs.filter (fun x => x.1 != path)
+            match pv with
+            | .bad why => return s!"BADOP {why}"
+            | .fail why => if fail.isNone then fail := some (idx, s!"part @{path}: {why}")
+            | .ok => pure ()
+      | none => pure ()   -- below a reader that consumes the part's ReadBits: compared with the model only
+    | _ =>
+      if !taintTop then
+        let (pv, c') := checkOp c op o
+        c := c'
+        match pv with
+        | .bad why => return s!"BADOP {why}"
+        | .fail why => if fail.isNone then fail := some (idx, why)
+        | .ok => pure ()
     idx := idx + 1
   let last := impl.getLast?
   if impl.length < ops.length && !(last == some .panic || last == some .hang) then
@@ -468,7 +587,7 @@ def stepC01 (op obs : String) : String :=
     | [t, o] =>
       let tws := (words t).drop 1
       match parseTerm (tws.length + 1) tws with
-      | some (s, []) =>
+      | some (s, [], marks) =>
         let opsS := (o.splitOn ";").map (fun x => x.trimAscii.toString) |>.filter (· ≠ "")
         match opsS.mapM parseOp with
         | none => "BADOP op"
@@ -476,7 +595,7 @@ def stepC01 (op obs : String) : String :=
           let obsS := (obs.splitOn ";").map (fun x => x.trimAscii.toString) |>.filter (· ≠ "")
           match obsS.mapM parseObs with
           | none => "BADOP obs"
-          | some impl => histVerdict s ops impl
+          | some impl => histVerdict s marks ops impl
       | _ => "BADOP term"
     | _ => "BADOP history syntax"
   | _ => "BADOP op"
